@@ -431,3 +431,17 @@ package x509
 //@ props C11
 //@ arith int
 //@ requires nfe != nil
+
+// C02 "the validated path contains the submitted certificates unchanged" rests on certificate
+// identity: two certificates are equal exactly when their complete DER encodings — signature included —
+// are the same bytes (a copy of a trust anchor with a different signature is a different certificate).
+//@ func (*Certificate).Equal
+//@ props C02
+//@ pure
+//@ site bytes.Equal#1 as be
+//@ ensures [nil-equals-only-nil] c == nil || other == nil ==> result == (c == other) && !be.called
+//@ ensures [otherwise-the-verdict-on-the-whole-encodings] c != nil && other != nil ==> be.called && result == be.res
+//@ at be assert [compares-the-complete-der-encodings] be.a == c.Raw && be.b == other.Raw
+//@ after be define certEqual(c, other) == be.res
+//@ note the line above names this call's verdict for callers (trillian/ctfe speaks of certEqual); it assumes that Equal on the same two certificates always gives the same verdict (certificates are not modified once parsed)
+//@ ensures [callers-see-the-named-verdict] c != nil && other != nil ==> result == certEqual(c, other)
